@@ -3,7 +3,7 @@ from vlib.core import Case
 
 ID = "C12"
 COMPONENTS = ["s_admit", "binhdr"]
-T4 = ["ServerAdmission", "Timeout"]
+T4 = ["ServerAdmission", "Errors", "Timeout"]
 PROOF_MODULES = ["GrpcProofs.Properties.C12"]
 THEOREMS = ["GrpcProofs.C12." + t for t in (
     "handle_implies_legal", "handle_implies_all_content_types_valid_counterexample",
